@@ -70,9 +70,8 @@ Proof.
   unfold rt_Matches.
   assert (E1 : ext_eqb (rt_ext a) (rt_ext a) = true) by (apply ext_eqb_eq; reflexivity).
   rewrite E1, eqb_bytes_refl. cbn [andb].
-  destruct (rt_pct a) as [p|]; [|reflexivity].
-  rewrite equals_refl. cbn [andb].
-  destruct (rt_sur a) as [s|]; [apply equals_refl|reflexivity].
+  destruct (rt_pct a) as [p|]; [rewrite equals_refl; cbn [andb]|];
+    (destruct (rt_sur a) as [s|]; [apply equals_refl|reflexivity]).
 Qed.
 
 Lemma rt_Matches_sym a b : rt_Matches a b = rt_Matches b a.
@@ -89,10 +88,12 @@ Proof.
     - apply eqb_bytes_eq in X. symmetry in X. apply eqb_bytes_eq in X. congruence.
     - apply eqb_bytes_eq in Y. symmetry in Y. apply eqb_bytes_eq in Y. congruence. }
   rewrite E1, E2. f_equal.
-  destruct (rt_pct a) as [p|], (rt_pct b) as [q|]; try reflexivity.
-  rewrite (equals_sym p q). f_equal.
-  destruct (rt_sur a) as [s|], (rt_sur b) as [s2|]; try reflexivity.
-  apply equals_sym.
+  assert (S : match rt_sur a, rt_sur b with None, None => true | Some s, Some s2 => equals s s2 | _, _ => false end =
+              match rt_sur b, rt_sur a with None, None => true | Some s, Some s2 => equals s s2 | _, _ => false end).
+  { destruct (rt_sur a) as [s|], (rt_sur b) as [s2|]; try reflexivity. apply equals_sym. }
+  destruct (rt_pct a) as [p|], (rt_pct b) as [q|]; try reflexivity; cbv zeta.
+  - rewrite (equals_sym p q). f_equal. exact S.
+  - exact S.
 Qed.
 
 Lemma rt_Matches_trans a b c :
@@ -104,11 +105,14 @@ Proof.
   assert (X3 : ext_eqb (rt_ext a) (rt_ext c) = true) by (apply ext_eqb_eq; congruence).
   assert (Y3 : eqb_bytes (rt_country a) (rt_country c) = true) by (apply eqb_bytes_eq; congruence).
   rewrite X3, Y3. split; [split; reflexivity|].
+  cbv zeta in *.
   destruct (rt_pct a) as [p|], (rt_pct b) as [q|], (rt_pct c) as [r|]; try discriminate; try reflexivity.
-  apply andb_true_iff in Z1, Z2. destruct Z1 as [P1 S1], Z2 as [P2 S2].
-  apply andb_true_iff. split; [exact (equals_trans _ _ _ P1 P2)|].
-  destruct (rt_sur a) as [s|], (rt_sur b) as [s2|], (rt_sur c) as [s3|]; try discriminate; try reflexivity.
-  exact (equals_trans _ _ _ S1 S2).
+  - apply andb_true_iff in Z1, Z2. destruct Z1 as [P1 S1], Z2 as [P2 S2].
+    apply andb_true_iff. split; [exact (equals_trans _ _ _ P1 P2)|].
+    destruct (rt_sur a) as [s|], (rt_sur b) as [s2|], (rt_sur c) as [s3|]; try discriminate; try reflexivity.
+    exact (equals_trans _ _ _ S1 S2).
+  - destruct (rt_sur a) as [s|], (rt_sur b) as [s2|], (rt_sur c) as [s3|]; try discriminate; try reflexivity.
+    exact (equals_trans _ _ _ Z1 Z2).
 Qed.
 
 (* matching groups answer every key alike *)
